@@ -1,6 +1,7 @@
 from typing import Tuple, Union
 
 import numba as nb
+from numba.typed import List as NumbaList
 import numpy as np
 import pandas as pd
 import polars as pl
@@ -150,6 +151,9 @@ def monotonic_factorization(arr: ArrayType1D) -> Tuple[int, np.ndarray, pd.Index
         return 0, np.empty(0, dtype=np.uint32), pd.Index([], dtype=pd_type)
 
     arr_list = _val_to_numpy(arr, as_list=True)
+    if any(len(a) == 0 for a in arr_list) and any(len(a) > 0 for a in arr_list):
+        # the run detector reads the first element of every chunk it enters
+        arr_list = NumbaList([a for a in arr_list if len(a) > 0])
 
     total_len = len(arr)
     cutoff, codes, labels = _monotonic_factorization(arr_list, total_len)
